@@ -39,11 +39,13 @@ def cart_specs(draw, tier):
             corner = draw(st.integers(0, 3)) == 0  # straddle all periodic faces at once
             for a in range(dim):
                 if geom.periodic[a]:
-                    kind = "face" if corner else draw(st.sampled_from(["in", "in", "out", "face", "centre"]))
+                    kind = "face" if corner else draw(st.sampled_from(["in", "in", "out", "far", "face", "centre"]))
                     if kind == "in":
                         x = geom.origin[a] + draw(st.floats(0, 1, **finite)) * geom.L[a]
                     elif kind == "out":
                         x = geom.origin[a] + draw(st.floats(-1, 2, **finite)) * geom.L[a]
+                    elif kind == "far":  # several periods away from the box
+                        x = geom.origin[a] + draw(st.floats(-4, 5, **finite)) * geom.L[a]
                     elif kind == "face":  # near / on a periodic face -> straddles
                         x = geom.origin[a] + draw(st.sampled_from([0.0, 1.0])) * geom.L[a] + draw(st.floats(-1, 1, **finite)) * geom.dx[a]
                     else:  # exactly on a cell centre
@@ -127,7 +129,7 @@ class C01(Property):
         "Hypothesis constructs a grid (Cartesian 1-3D with every periodicity mask, anisotropy 0.4-2.5, spacings over 3.5 decades, "
         "arbitrary origins; polar, spherical, cylindrical with both periodic_z) and 1-4 spherical droplets that satisfy the stated "
         "preconditions by construction (covers >= 1 cell centre; centre distance >= R_i+R_j+2|dx|; not cut by a non-periodic wall; "
-        "2R <= L-2dx on periodic axes), with centres inside, outside the box, near periodic faces and exactly on cell centres. The "
+        "2R <= L-2dx on periodic axes), with centres inside, outside the box (up to several periods away on periodic axes), near periodic faces and exactly on cell centres. The "
         "emulsion is rendered with get_phasefield and located with locate_droplets (threshold 0.5, no refinement). Oracle: "
         "independent covered-cell set under the minimal-image metric -> count, volume (sum of cell volumes), per-axis half-cell "
         "bound on the centre, position inside the bounds on periodic axes. Non-trivial = >= 2 droplets, a droplet straddling a "
